@@ -164,19 +164,22 @@ Definition dec (n : N) : string := dec_fuel 25 n "".
 
    The recursion of the real code is unbounded (an environment value that contains a reference to
    itself behind its first character never stops growing); the transcription has explicit fuel
-   (nesting depth of calls) and the error value XFuel.  XThrow: find_next(":", to_expand) computes
-   end - 1 for a colon at position 0 and std::string::replace throws std::out_of_range. *)
-Inductive xres := XOk (s : string) | XFuel | XThrow.
+   (nesting depth of calls) and the error value XFuel.  (Until the repair of find_next - "fix: ini
+   find_next does not look in front of position 0 for an escape character" - there was a third
+   result XThrow: find_next(":", to_expand) computed end - 1 for a colon at position 0 and
+   std::string::replace threw std::out_of_range.  Nothing produces it any more.) *)
+Inductive xres := XOk (s : string) | XFuel.
 Definition xbind (r : xres) (f : string -> xres) : xres :=
-  match r with XOk s => f s | XFuel => XFuel | XThrow => XThrow end.
+  match r with XOk s => f s | XFuel => XFuel end.
 Definition xmap (f : string -> string) (r : xres) : xres := xbind r (fun s => XOk (f s)).
 Definition xstr (r : xres) : string := match r with XOk s => s | _ => EmptyString end.
 
 (* find_next(ch, value, begin) on the text behind the start of the search: the first occurrence of ch
    that is not preceded by a backslash; the backslash of every escaped occurrence passed on the way is
    REMOVED FROM THE VALUE, also when no unescaped occurrence follows (FNone carries the changed text).
-   The character in front of the searched text is never a backslash ('{' / '[' for the closing
-   delimiter; for ':' see split_colon). *)
+   An occurrence at the very start of the searched text is never an escaped one: the character in
+   front of it is '{' / '[' for the closing delimiters, and for ':' (searched from position 0 of
+   to_expand) there is no character in front: `if (end == 0 || value[end - 1] != '\\') break;`. *)
 Inductive fnres := FFound (before after : string) | FNone (changed : string).
 Fixpoint find_next (c : ascii) (s : string) : fnres :=
   match s with
@@ -194,15 +197,14 @@ Fixpoint find_next (c : ascii) (s : string) : fnres :=
            end
   end.
 
-(* find_next(":", to_expand): the search starts at position 0; a colon there makes the code evaluate
-   value.replace(size_t(-1), 2, ":") -> std::out_of_range (None) *)
-Definition split_colon (inside : string) : option fnres :=
-  match inside with
-  | String d _ => if aeqb d c_colon then None else Some (find_next c_colon inside)
-  | EmptyString => Some (FNone EmptyString)
-  end.
+(* find_next(":", to_expand): the search starts at position 0; a colon there is found at once
+   (end == 0): the name in front of it is empty and everything behind it is the default *)
+Definition split_colon (inside : string) : fnres := find_next c_colon inside.
 
-Definition getenv (env : list (string * string)) (k : string) : option string := assoc k env.
+(* getenv(3): the empty name is never found (glibc returns NULL for name[0] == 0 even when environ holds
+   an entry "=v"; checked with execve) - that is what ${:default} asks for *)
+Definition getenv (env : list (string * string)) (k : string) : option string :=
+  match k with EmptyString => None | _ => assoc k env end.
 
 Fixpoint dollars (s : string) : nat :=
   match s with EmptyString => O | String c r => (if aeqb c c_dollar then 1 else 0) + dollars r end.
@@ -228,10 +230,9 @@ Section Expand.
         | FNone r' => XOk (String c_dollar (String c_lbrace r'))
         | FFound inside after =>
             match split_colon inside with
-            | None => XThrow
-            | Some (FNone name) =>
+            | FNone name =>
                 XOk ((match getenv env name with Some v => v | None => EmptyString end) ++ after)
-            | Some (FFound name dflt) =>
+            | FFound name dflt =>
                 XOk ((match getenv env name with Some v => v | None => dflt end) ++ after)
             end
         end).
@@ -243,10 +244,9 @@ Section Expand.
         | FFound inside after =>
             let keep := String c_dollar (String c_lbrack (inside ++ String c_rbrack after)) in
             match split_colon inside with
-            | None => XThrow
-            | Some (FNone name) =>
+            | FNone name =>
                 if mine name then xmap (fun v => v ++ after) (get_entry name EmptyString) else XOk keep
-            | Some (FFound name dflt) =>
+            | FFound name dflt =>
                 if mine name then xmap (fun v => v ++ after) (get_entry name dflt) else XOk keep
             end
         end).
@@ -302,7 +302,7 @@ Definition builtin (env : list (string * string)) (key : string) : string := xst
 Definition known_key (key : string) : bool :=
   match assoc key builtin_ini with Some _ => true | None => false end.
 
-(* the first expansion of a list that does not end (XFuel) or throws (XThrow) *)
+(* the first expansion of a list that does not end (XFuel) *)
 Fixpoint first_bad (l : list xres) : xres :=
   match l with
   | [] => XOk EmptyString
@@ -358,8 +358,7 @@ Inductive reject :=
   | RResources           (* more threads than processing units / bad scheduler downstream *)
   | RLateUnknown         (* late handler: unrecognised option, stop() = -1, entry point not run *)
   | RLateSplit           (* late: the rebuilt command line cannot be split again *)
-  | RExpandLoop          (* a ${..} / $[..] expansion does not end: start-up hangs (model: out of fuel) *)
-  | RExpandCrash.        (* ${:..}: std::out_of_range escapes from find_next, the process is terminated *)
+  | RExpandLoop.         (* a ${..} / $[..] expansion does not end: start-up hangs (model: out of fuel) *)
 
 Record config := {
   c_threads : N; c_cores : N; c_sched : string; c_policy : nat;
@@ -736,7 +735,6 @@ Definition cmd_line_status (ex : string -> string -> xres) (arg0 : string) (args
 Definition app_argv (ex : string -> string -> xres) (arg0 pco : string) (args : list string) (p : parsed) : option (list string) + reject :=
   match cmd_line_status ex arg0 args p with
   | XFuel => inr RExpandLoop
-  | XThrow => inr RExpandCrash
   | XOk _ =>
   if (match p_unreg p with [] => false | _ => true end) then inr RLateUnknown else
   if negb (late_line_ok ex arg0 pco args) then inr RLateSplit else
@@ -766,10 +764,9 @@ Definition final_entries (env : list (string * string)) (inis resolved : list (s
 
 Definition run (env : list (string * string)) (m : machine) (arg0 : string) (args : list string) : outcome :=
   (* the constructor of the runtime configuration adds every built-in line (expand_only of the
-     environment values); the handlers read them: an expansion that does not end / throws stops everything *)
+     environment values); the handlers read them: an expansion that does not end stops everything *)
   match builtin_status env with
   | XFuel => Rejected RExpandLoop
-  | XThrow => Rejected RExpandCrash
   | XOk _ =>
   let pco := builtin env "pika.commandline.prepend_options" in
   match tok_prepend pco with
